@@ -262,3 +262,72 @@ def gen_cases(L, rng, n_orb, n_pal):
             term = "(tpal %s %s %s %s)" % (R.coq(), H(G), vlib.flist(pl), vlib.flist(prl))
             cases.append((kind, term, [x.value for x in out], {"a": a, "h": h, "k": k, "ix": ix, "iy": iy, "lambda": lam}))
     return cases
+
+
+# ----------------------------------------------------------------------------- value flow of the two front ends
+def _E_to_f(R, e, E):
+    e = F(e); E = F(E)
+    if e > 1.:
+        return R.mod2pi(F(2.) * R.f("atan", np.sqrt((F(1.) + e) / (e - F(1.))) * R.f("tanh", F(0.5) * E)))
+    return R.mod2pi(F(2.) * R.f("atan", np.sqrt((F(1.) + e) / (F(1.) - e)) * R.f("tan", F(0.5) * E)))
+
+
+def flow_case(L, c, dec, front, prim):
+    """records the libm / pow values the front end's value flow and reb_particle_from_orbit_err ask for.
+    Returns (coq_term_without_expected) for an accepted-classical decision `dec` (>= 1000)."""
+    H = vlib.fhex
+    R = Rec2(L)
+    powt = {}
+
+    def pw(x, y):
+        z = float(x) ** float(y)
+        powt[(R.key(x), R.key(y))] = (float(x), float(y), z)
+        return F(z)
+    v = c["vals"]
+    get = lambda n: F(v[n]) if n in c["names"] else F(0.)
+    G = F(c["G"]); t = F(c["t"]); m = get("m"); pm = F(prim[0])
+    afp = (dec // 100) % 10 == 1
+    pe = (dec // 10) % 10
+    an = dec % 10
+    PI = F(math.pi)
+    if afp:
+        P = get("P")
+        if front == "c":
+            a = R.f("cbrt", P * P * G * (pm + m) / (F(4.) * PI * PI))
+        else:
+            a = pw(pw(P, 2.) * G * (pm + m) / (F(4.) * pw(PI, 2.)), F(1.) / F(3.))
+    else:
+        a = get("a")
+    e, inc, Om = get("e"), get("inc"), get("Omega")
+    cosi = R.f("cos", inc)
+    if pe == 0:
+        om = F(0.)
+    elif pe == 1:
+        om = get("omega")
+    else:
+        om = get("pomega") - Om if cosi > 0 else Om - get("pomega")
+    M2f = lambda M: _E_to_f(R, e, R.M_to_E(e, M))
+    if an == 0:
+        f = F(0.)
+    elif an == 1:
+        f = get("f")
+    elif an == 2:
+        f = M2f(get("M"))
+    elif an == 3:
+        f = _E_to_f(R, e, get("E"))
+    elif an == 4:
+        f = M2f(get("l") - Om - om if cosi > 0 else Om - om - get("l"))
+    elif an == 5:
+        f = get("theta") - Om - om if cosi > 0 else Om - om - get("theta")
+    else:
+        if front == "c":
+            n = np.sqrt(G * (pm + m) / abs(a * a * a))
+        else:
+            n = pw(G * (pm + m) / abs(pw(a, 3.)), F(0.5))
+        f = M2f(n * (t - get("T")))
+    for x in (Om, om, f, inc):
+        R.f("cos", x); R.f("sin", x)
+    two = "[" + "; ".join("(%s, %s, %s)" % (H(x), H(y), H(z)) for x, y, z in powt.values()) + "]"
+    vals = [G, t, m] + [get(n) for n in ("a", "P", "e", "inc", "Omega", "omega", "pomega", "f", "M", "E", "l", "theta", "T")]
+    return "(flow_particle %s %s %s %s %s %d %d %s)" % ("true" if front == "py" else "false", R.coq(), two, vlib.flist(prim),
+                                                       "true" if afp else "false", pe, an, vlib.flist([float(x) for x in vals]))
